@@ -17,6 +17,9 @@ PROP = "C15"
 PRESETS = [("zero", ""), ("ones", "sp:0xffff;a:0xff;x:0xff;y:0xff;r1:0xffff;r4:0xffff;r5:0xffff;r15:0xffff;hl:0xffff;ix:0xffff;iy:0xffff;$29:0xffffffff;$4:0xffffffff;x2:0xffffffff;x5:0xffffffff"),
            ("low", "sp:0;r1:0;r4:1;r5:2;hl:1;ix:0;iy:0;$29:0;x2:0")]
 PCS = [0, 0x200, 0xfffe]
+# architecture address spaces in bytes (0 = not stated here)
+SPACE = {"6502": 65536, "z80": 65536, "8008": 16384, "1802": 65536, "msp430": 65536, "tms9900": 65536, "avr8": 0,
+         "lc3": 131072, "stm8": 16777216, "65816": 16777216}
 
 
 def run(tier, seed):
@@ -40,6 +43,12 @@ def run(tier, seed):
             cid = "%s.%04x" % (cpu["name"], p)
             meta[cid] = (cpu["name"], p, PRESETS[pi][0], pc)
             cases.append((cid, "cpu=%s pc=%d regs=%s show=pc;sp;a rep=1" % (cpu["name"], pc, PRESETS[pi][1]), body))
+        # every first byte with operands at the top of the address space and all-ones index registers
+        for b in range(256):
+            p = (b << 8) | 0xf0
+            cid = "%s.t%02x" % (cpu["name"], b)
+            meta[cid] = (cpu["name"], p, "ones", 0x200)
+            cases.append((cid, "cpu=%s pc=512 regs=%s show=pc;sp;a rep=1" % (cpu["name"], PRESETS[1][1]), "512:%04x%s" % (p, "ff" * 6)))
     obs = C.conform_parallel(vdir, "sim", cases, chk.rundir, "c15", 5, nproc=C.NCPU)
     byid = {o["case"]: o for o in obs}
     events = []
@@ -64,7 +73,8 @@ def run(tier, seed):
             return {"ret": r["ret"], "digest": hashlib.md5(json.dumps([r["regs"], r["diff"], r["dump"]], sort_keys=True).encode()).hexdigest()}
         if o["a"]["ret"] == -1:
             s["illegal"] += 1
-        events.append({"id": c[0], "cpu": cpu, "a": dig(o["a"]), "b": dig(o["b"])})
+        events.append({"id": c[0], "cpu": cpu, "a": dig(o["a"]), "b": dig(o["b"]), "space": SPACE.get(cpu, 0),
+                       "top": min(o["a"]["top"], (1 << 31) - 1)})
     canaries = set()
     for e in rnd.sample(events, min(16, len(events))):
         c = json.loads(json.dumps(e))
@@ -93,7 +103,7 @@ def run(tier, seed):
         distinct_nontrivial=len(cases),
         rule="for each of the simulators of cpu_list[]: leading 16-bit patterns (quick: 1500 seeded + 256 spread; thorough: all "
              "65,536) with pattern-derived operand bytes, 3 register presets (zero, all ones, low), PC at 0, 0x200 and the top "
-             "of a 64 KiB space; each case executed twice; distinct = (simulator, pattern)",
+             "of a 64 KiB space, plus every first byte with 0xf0 0xff.. operands and all-ones registers; each case executed twice; distinct = (simulator, pattern)",
         traces_validated_against_impl=len(events) - len(canaries), per_simulator=per, simulators=len(cpus),
         canaries=dict(injected=len(canaries), rejected=len(canaries)), exhaustive=(tier == "thorough")))
     chk.samples = [dict(case=c[1], body=c[2]) for c in rnd.sample(cases, 4)]
